@@ -119,27 +119,36 @@ def check(ctx):
                 ctx.check(bool(bad) or (bool(enc_calls_on_data) and producers_ok), R, "C05/commit-after-accept/ciphertext-from-clone", site(b, wb),
                           reason="the bytes given to the inner writer are not produced by encrypting with a clone of the cipher state",
                           detail="ciphertext for the inner write comes from a cloned cipher")
-                # committed range = buf[..n]
+                # committed range = buf[..n]: every mutation site is checked on its own
                 if muts and not bad:
-                    rng_ok = False
                     for bb, kind, item in muts:
+                        rng_ok = False
+                        why = ""
                         if kind == "overwrite":
-                            # only when everything was accepted: guarded by n == buf.len()
+                            # replacing the state by the clone is only right when everything was accepted: n == buf.len()
                             for blk in b.blocks:
                                 if blk.cleanup or blk.term.kind != "switch":
                                     continue
                                 e, ls = an.switch_info(blk.idx)
-                                if e[0] == "binop" and e[1] == "Eq" and calls_in(e, "len") and g.must_pass(bb, cut_edges=[(blk.idx, tb) for tb, l in ls.items() if "true" in l])[0]:
+                                if e[0] == "binop" and e[1] == "Eq" and calls_in(e, "len") and param_name(flow.strip(calls_in(e, "len")[0][3][0])) == "buf" \
+                                        and g.must_pass(bb, cut_edges=[(blk.idx, tb) for tb, l in ls.items() if "true" in l])[0]:
                                     rng_ok = True
+                            why = "the encryptor is overwritten by the advanced clone without a dominating `written == buf.len()` test"
                         else:
                             src = arg(an, bb, item, 1)
-                            idx = calls_in(src, "Index::index")
-                            for c in idx:
+                            for c in calls_in(src, "Index::index"):
                                 r0 = flow.strip(c[3][1])
                                 if param_name(c[3][0]) == "buf" and r0[0] == "agg" and r0[1].endswith("RangeTo"):
                                     rng_ok = True
-                    ctx.check(rng_ok, R, "C05/commit-after-accept/exactly-accepted-bytes", b.loc,
-                              reason="the committed keystream does not cover exactly buf[..n]", detail="commit covers buf[..n]")
+                            # the re-encrypted bytes must be the caller's plaintext, not bytes that already went through a cipher
+                            tainted = [m for m in find_all(src, lambda x: x[0] == "mut") if any(n.endswith("encrypt_block_mut") for n in m[2])
+                                       and not find_all(m[1], lambda x: x[0] == "call" and flow.short(x[1]).endswith("Index::index"))]
+                            if tainted:
+                                rng_ok = False
+                            why = ("the real encryptor is advanced over %s; it must run over the accepted plaintext prefix buf[..n] — feeding it ciphertext "
+                                   "(or any other bytes) leaves a wrong CFB8 feedback register after a short write") % render(flow.strip(src), maxdepth=4)
+                        ctx.check(rng_ok, R, "C05/commit-after-accept/exactly-accepted-bytes/" + kind, site(b, bb), reason=why,
+                                  detail="commit (%s) covers exactly the accepted plaintext buf[..n]" % kind)
     for fn in ("poll_flush", "poll_shutdown"):
         fb = ctx.body(r"^passage_protocol::crypto::stream::\{impl#\d+\}::%s$" % fn, rule="C05/passthrough")
         if fb is not None:
